@@ -15,12 +15,14 @@ line is read back token by token; the no-space decisions are safe), `RenderPiece
 (output lines as pieces), `RenderShape.lean` (Render's loop produces well-formed pieces),
 `RenderRetok.lean` (assembly).
 
-`render_retokenizes` is PROVED except for "the output parses" (`render_retokenizes_partial`): for
-every stream of well-formed tokens and comments with non-decreasing lines that satisfy `linesOK`
-— what Tokenize and the parser guarantee and the harness checks on every accepted source (op
-`rok`) — and whose output has fewer than maxLine lines, the output of `Render` tokenizes again,
-to the same number of tokens, pairwise equal as texts or equal as numbers, with the same
-interleaved sequence of tokens and comments (`Proof/RenderItems.lean`, `RenderShape.lean`).
+`render_retokenizes` is PROVED with the line structure `linesOK` in place of "the parser accepts"
+(what the parser guarantees and the harness checks on every accepted source, op `rok`): for every
+source that Tokenize and Render accept, with that line structure and an output of fewer than
+maxLine lines, the output tokenizes again, to the same number of tokens, pairwise equal as texts
+or equal as numbers, with the same interleaved sequence of tokens and comments, and with that
+line structure again (`Proof/RenderItems.lean`, `RenderShape.lean`, `RenderTokWf.lean`,
+`RenderClosure.lean`); `render_retokenizes_partial` is the same for every well-formed stream.
+That the output PARSES again is not modelled.
 `render_idempotent` is stated in full below and is OPEN as a theorem; it is evaluated on the
 implementation, and the models tied to it byte-for-byte, on every run.
 -/
@@ -29,6 +31,7 @@ import WuffsVerif.Proof.RenderPairs
 import WuffsVerif.Proof.RenderRetok
 import WuffsVerif.Proof.RenderNumIdem
 import WuffsVerif.Proof.RenderTokWf
+import WuffsVerif.Proof.RenderClosure
 
 namespace WuffsVerif.Props.C12
 open WuffsVerif.FmtToken WuffsVerif.Render WuffsVerif.Gen.C12
@@ -65,12 +68,14 @@ def RenderIdempotent (Accepts : List Tok → Prop) : Prop :=
     tokenize src = some (toks, comments) → Accepts toks → render toks comments = some out →
     fmt out = some out
 
--- OPEN: theorem render_retokenizes : RenderRetokenizes ParserAccepts
---   PROVED below: `render_retokenizes_of_source` — everything but the last conjunct, with
---   `Accepts toks := linesOK (toks.length + 1) toks` and the hypothesis that the output has fewer than maxLine
---   lines; and `render_retokenizes_partial` — the same for every stream with the decidable hypothesis
---   `streamOK`, not only results of Tokenize.  Missing: a model of lang/parse (`Accepts toks'`: the output
---   parses; and `ParserAccepts toks → linesOK`, which the harness checks on every accepted source, op `rok`).
+-- `RenderRetokenizes ParserAccepts` itself is not provable: (1) without a bound on the number of output
+--   lines it is false (KNOWN_FINDINGS retok:too-many-lines); (2) there is no model of lang/parse.
+--   PROVED below: `render_retokenizes : RenderRetokenizesBelowMaxLine LinesAccept` — the clause in full with
+--   the line bound and with `Accepts toks := linesOK (toks.length + 1) toks`, the part of the parser's
+--   guarantees that matters (the harness checks `ParserAccepts toks → linesOK` on every accepted source, op
+--   `rok`); `render_retokenizes_of_source` (the same without the closure conjunct) and
+--   `render_retokenizes_partial` (for every stream with the decidable hypothesis `streamOK`, not only
+--   results of Tokenize).  Not covered: that the output PARSES again (checked on the implementation only).
 -- OPEN: theorem render_idempotent : RenderIdempotent ParserAccepts
 --   Missing: that Render's decisions (indent, hanging, blank lines, varNameLength) depend on the line numbers
 --   only through equality / adjacency, which the re-read stream (`piecesOut`, `piecesC`) preserves, and that
@@ -136,6 +141,34 @@ theorem render_retokenizes_of_source (src out : Bytes) (toks : List Tok) (commen
       ItemsAgree (items toks comments) (items toks' comments') := by
   obtain ⟨h1, h2, h3⟩ := tokenize_wf src toks comments ht hl
   exact render_retokenizes_items toks comments out h1 h2 hl h3 hr hnl
+
+/-- `RenderRetokenizes` for outputs of fewer than `maxLine` lines (without this restriction the
+clause is false: KNOWN_FINDINGS retok:too-many-lines). -/
+def RenderRetokenizesBelowMaxLine (Accepts : List Tok → Prop) : Prop :=
+  ∀ (src out : Bytes) (toks : List Tok) (comments : Array Bytes),
+    tokenize src = some (toks, comments) → Accepts toks → render toks comments = some out →
+    out.count 10 < maxLine →
+    ∃ toks' comments', tokenize out = some (toks', comments') ∧
+      toks.length = toks'.length ∧ (∀ p ∈ toks.zip toks', tokEquiv p.1 p.2) ∧
+      ItemsAgree (items toks comments) (items toks' comments') ∧ Accepts toks'
+
+/-- `render_retokenizes` (PROVED): the clause in full — including that the output is accepted again —
+with `Accepts toks := linesOK (toks.length + 1) toks` in place of "the parser accepts `toks`": for
+every source that Tokenize accepts with such a line structure and that Render accepts (output below
+the line limit), the output tokenizes again to the same tokens (numbers by value) and the same
+interleaved sequence of tokens and comments, and has such a line structure again. -/
+theorem render_retokenizes :
+    RenderRetokenizesBelowMaxLine (fun toks => linesOK (toks.length + 1) toks = true) := by
+  intro src out toks comments ht hl hr hnl
+  obtain ⟨h1, h2, h3⟩ := tokenize_wf src toks comments ht hl
+  obtain ⟨toks', comments', htok, hlen, hrel, hitems⟩ :=
+    render_retokenizes_items toks comments out h1 h2 hl h3 hr hnl
+  obtain ⟨toks'', comments'', htok2, hl2⟩ := render_output_linesOK toks comments out h1 h2 hl hr hnl
+  rw [htok] at htok2
+  have e := Option.some.inj htok2
+  simp only [Prod.mk.injEq] at e
+  obtain ⟨rfl, rfl⟩ := e
+  exact ⟨toks', comments', htok, hlen, hrel, hitems, hl2⟩
 
 /-- the same without the comments (no need for non-decreasing lines) -/
 theorem render_retokenizes_tokens_partial (toks : List Tok) (comments : Array Bytes) (out : Bytes)
